@@ -21,7 +21,7 @@ def _c20_case(c):
 
 CONFIG = {
     "properties_file": "Properties/C20.v",
-    "proof_files": ["Base/Prelude.v", "Base/Regex.v", "Proofs/Reference.v", "Proofs/RefOps.v"],
+    "proof_files": ["Base/Prelude.v", "Base/Regex.v", "Proofs/Reference.v", "Proofs/RefOps.v", "Proofs/RefURL.v"],
     "model_files": ["Generated/GC20.v", "Model/Reference.v", "Model/RefOps.v"],
     "extract": "XC20.v",
     "ml_main": "c20_main.ml",
